@@ -9,11 +9,14 @@ package main
 import (
 	"bufio"
 	"encoding/json"
+	"errors"
 	"fmt"
 	"math/rand"
 	"os"
+	"regexp"
 	"regexp/syntax"
 	"sort"
+	"strconv"
 	"strings"
 	"time"
 
@@ -82,29 +85,54 @@ func lineFor(mst string, tags []ctag, t int64) string {
 // createSeries sends the point through the production line-protocol parser and the engine's write
 // path (shard.WriteRows -> IndexBuilder.CreateIndexIfNotExists). Returns the tags the parser kept.
 func (x *ixEnv) createSeries(mst string, tags []ctag) ([]ctag, error) {
-	x.t += 1e9
-	line := lineFor(mst, tags, x.t)
+	kept, err := x.createMany(mst, [][]ctag{tags})
+	if err != nil {
+		return nil, err
+	}
+	return kept[0], nil
+}
+
+// createMany writes one point per tag set in ONE request (one line-protocol body, one WriteRows batch),
+// the way a client creates many series of a measurement at once.
+func (x *ixEnv) createMany(mst string, tagSets [][]ctag) ([][]ctag, error) {
+	var body strings.Builder
+	for _, tags := range tagSets {
+		x.t += 1e9
+		body.WriteString(lineFor(mst, tags, x.t))
+		body.WriteByte('\n')
+	}
 	var prs influx.PointRows
-	if err := prs.Unmarshal(line, false); err != nil {
-		return nil, fmt.Errorf("line protocol %q: %w", line, err)
+	if err := prs.Unmarshal(body.String(), false); err != nil {
+		return nil, fmt.Errorf("line protocol %q: %w", clip(body.String(), 300), err)
 	}
-	if len(prs.Rows) != 1 {
-		return nil, fmt.Errorf("line protocol %q: %d rows", line, len(prs.Rows))
+	if len(prs.Rows) != len(tagSets) {
+		return nil, fmt.Errorf("line protocol %q: %d rows, %d lines sent", clip(body.String(), 300), len(prs.Rows), len(tagSets))
 	}
-	r := &prs.Rows[0]
-	if r.Name != mst {
-		return nil, fmt.Errorf("line protocol %q: measurement parsed as %q", line, r.Name)
+	pts := make([]engx.Pt, 0, len(prs.Rows))
+	kept := make([][]ctag, len(prs.Rows))
+	for i := range prs.Rows {
+		r := &prs.Rows[i]
+		if r.Name != mst {
+			return nil, fmt.Errorf("line protocol %q: measurement parsed as %q", clip(body.String(), 300), r.Name)
+		}
+		pt := engx.Pt{Mst: r.Name, Time: r.Timestamp}
+		for _, tg := range r.Tags {
+			pt.Tags = append(pt.Tags, [2]string{tg.Key, tg.Value})
+			kept[i] = append(kept[i], ctag{tg.Key, tg.Value})
+		}
+		for _, f := range r.Fields {
+			pt.Fields = append(pt.Fields, engx.FV{Key: f.Key, Typ: f.Type, Num: f.NumValue, Str: f.StrValue})
+		}
+		pts = append(pts, pt)
 	}
-	pt := engx.Pt{Mst: r.Name, Time: r.Timestamp}
-	var kept []ctag
-	for _, tg := range r.Tags {
-		pt.Tags = append(pt.Tags, [2]string{tg.Key, tg.Value})
-		kept = append(kept, ctag{tg.Key, tg.Value})
+	return kept, x.e.Write(pts)
+}
+
+func clip(s string, n int) string {
+	if len(s) <= n {
+		return s
 	}
-	for _, f := range r.Fields {
-		pt.Fields = append(pt.Fields, engx.FV{Key: f.Key, Typ: f.Type, Num: f.NumValue, Str: f.StrValue})
-	}
-	return kept, x.e.Write([]engx.Pt{pt})
+	return s[:n] + fmt.Sprintf("... (%d bytes)", len(s))
 }
 
 func indexKeyOf(mst string, tags []ctag) []byte {
@@ -206,7 +234,17 @@ func (x *ixEnv) showKeys(mst, cond string) ([]string, error) {
 	return out, nil
 }
 
-func (x *ixEnv) selectIDs(mst, cond string) ([]uint64, error) {
+// a panic of the index code while it serves a search (the store turns it into a failed query)
+type ixPanic struct{ msg string }
+
+func (p *ixPanic) Error() string { return "the search PANICKED: " + p.msg }
+
+func (x *ixEnv) selectIDs(mst, cond string) (ids []uint64, err error) {
+	defer func() {
+		if p := recover(); p != nil {
+			ids, err = nil, &ixPanic{fmt.Sprint(p)}
+		}
+	}()
 	e, err := selectCond(cond)
 	if err != nil {
 		return nil, err
@@ -216,7 +254,6 @@ func (x *ixEnv) selectIDs(mst, cond string) ([]uint64, error) {
 	if err != nil {
 		return nil, err
 	}
-	var ids []uint64
 	for _, g := range gs {
 		for _, it := range g.TagSetItems() {
 			ids = append(ids, it.ID)
@@ -385,22 +422,42 @@ type ixKey struct {
 type ixIDEntry struct {
 	K  ixKey `json:"k"`
 	ID int   `json:"id"`
+	N  int   `json:"n"` // multiplicity: number of concrete series (members) the series stands for
+}
+
+// a set of members in the specification's encoding: IDs = series selected with all their members,
+// Part = the others that are touched: all members but JS (All = 1) or only JS (All = 0)
+type ixPart struct {
+	ID  int   `json:"id"`
+	All int   `json:"all"`
+	JS  []int `json:"js"`
 }
 
 type ixPrediction struct {
-	D   string `json:"d"`
-	IDs []int  `json:"ids"`
+	D    string   `json:"d"`
+	IDs  []int    `json:"ids"`
+	Part []ixPart `json:"part"`
+}
+
+// expectation of one leaf of a predicate tree searched on its own (SELECT path)
+type ixLeaf struct {
+	P    json.RawMessage `json:"p"`
+	IDs  []int           `json:"ids"`
+	Part []ixPart        `json:"part"`
+	DSel []ixPrediction  `json:"dsel"`
 }
 
 type ixQuery struct {
 	M     string                `json:"m"`
 	P     json.RawMessage       `json:"p"`
 	IDs   []int                 `json:"ids"`
-	Keys  []ixKey               `json:"keys"`
+	Part  []ixPart              `json:"part"`
 	TK    []string              `json:"tk"`
 	TV    map[string][][]string `json:"tv"`
+	TVN   []int                 `json:"tvn"`
 	DShow []ixPrediction        `json:"dshow"`
 	DSel  []ixPrediction        `json:"dsel"`
+	LV    []ixLeaf              `json:"lv"`
 }
 
 type ixStep struct {
@@ -432,6 +489,7 @@ type ixResult struct {
 	Lookups  int               `json:"lookups"`
 	Searches int               `json:"searches"` // predicates evaluated (each on all entry points)
 	Compared int               `json:"compared"` // entry-point results compared
+	HistDep  int               `json:"histdep"`  // searches whose (explained) answer changed with the history of the process
 	Conc     string            `json:"conc,omitempty"`
 }
 
@@ -442,6 +500,7 @@ const (
 	findLookup  = "F-C10-6"
 	findTagKeys = "F-C10-7"
 	findAlias   = "F-C10-8"
+	findPrune   = "F-C10-9"
 )
 
 // ---- concretisation of the abstract alphabets ------------------------------------------------------
@@ -490,6 +549,11 @@ func newIxConc(rng *rand.Rand) *ixConc {
 	if rng.Intn(4) == 0 {
 		c.key["b"] = c.key["a"] + nastyKeys[kp[1]] // one key a prefix of the other
 	}
+	// the extra tag that tells the members of a series with multiplicity > 1 apart
+	c.key["n"] = nastyKeys[kp[2]]
+	if c.key["n"] == c.key["a"] || c.key["n"] == c.key["b"] {
+		c.key["n"] = "member"
+	}
 	mp := rng.Perm(len(nastyMsts))
 	c.mst["m1"] = nastyMsts[mp[0]]
 	c.mst["m2"] = nastyMsts[mp[1]]
@@ -499,7 +563,7 @@ func newIxConc(rng *rand.Rand) *ixConc {
 	case 1:
 		c.mst["m2"] = c.mst["m1"] + "x"
 	}
-	c.desc = fmt.Sprintf("x=%q y=%q z=%q s=%q 1=%q a=%q b=%q m1=%q m2=%q", c.ch["x"], c.ch["y"], c.ch["z"], c.ch["s"], c.ch["1"], c.key["a"], c.key["b"], c.mst["m1"], c.mst["m2"])
+	c.desc = fmt.Sprintf("x=%q y=%q z=%q s=%q 1=%q a=%q b=%q n=%q m1=%q m2=%q", c.ch["x"], c.ch["y"], c.ch["z"], c.ch["s"], c.ch["1"], c.key["a"], c.key["b"], c.key["n"], c.mst["m1"], c.mst["m2"])
 	return c
 }
 
@@ -539,6 +603,15 @@ func (c *ixConc) normTags(k ixKey) []ctag {
 		}
 	}
 	return out
+}
+
+// member j of a series with multiplicity n: the extra tag tells the members apart (none when n = 1)
+func (c *ixConc) memberTags(tags []ctag, j, n int) []ctag {
+	if n <= 1 {
+		return tags
+	}
+	out := append([]ctag{}, tags...)
+	return append(out, ctag{c.key["n"], strconv.Itoa(j)})
 }
 
 func reQuoteRune(s string) string {
@@ -641,12 +714,27 @@ func (c *ixConc) cond(raw json.RawMessage) (string, error) {
 		r, err := c.cond(p[2])
 		return l + " " + op + " " + r, err
 	}
+	quoteKey := func(k string) string {
+		key := influxql.QuoteIdent(k)
+		if !strings.HasPrefix(key, `"`) {
+			key = `"` + key + `"`
+		}
+		return key
+	}
+	if op == "n=" || op == "n!=" { // the extra tag of the members; -1 = the empty string
+		var j int
+		if err := json.Unmarshal(p[1], &j); err != nil {
+			return "", err
+		}
+		v := ""
+		if j >= 0 {
+			v = strconv.Itoa(j)
+		}
+		return quoteKey(c.key["n"]) + " " + op[1:] + " " + influxql.QuoteString(v), nil
+	}
 	var ak string
 	_ = json.Unmarshal(p[1], &ak)
-	key := influxql.QuoteIdent(c.key[ak])
-	if !strings.HasPrefix(key, `"`) {
-		key = `"` + key + `"`
-	}
+	key := quoteKey(c.key[ak])
 	switch op {
 	case "=", "!=":
 		var v []string
@@ -666,18 +754,20 @@ func (c *ixConc) cond(raw json.RawMessage) (string, error) {
 
 // ---- replay ---------------------------------------------------------------------------------------
 
+// one concrete series: member j of the specification's series abs
 type ixSeries struct {
 	abs    int
+	j      int
 	real   uint64
 	mst    string // concrete
-	tags   []ctag // concrete, normalised
+	tags   []ctag // concrete, normalised (with the member tag)
 	render string
 }
 
 type ixReplay struct {
 	x      *ixEnv
 	c      *ixConc
-	byAbs  map[int]*ixSeries
+	byAbs  map[int][]*ixSeries // specification id -> its members, by member number
 	byReal map[uint64]*ixSeries
 	res    *ixResult
 	closed bool
@@ -702,14 +792,35 @@ func classFindings(d string) []string {
 	return out
 }
 
-func (r *ixReplay) realSet(abs []int) ([]uint64, error) {
+// realSet decodes a set of members of the specification into real series ids
+func (r *ixReplay) realSet(abs []int, part []ixPart) ([]uint64, error) {
 	out := make([]uint64, 0, len(abs))
 	for _, a := range abs {
-		s := r.byAbs[a]
-		if s == nil {
+		ms := r.byAbs[a]
+		if ms == nil {
 			return nil, fmt.Errorf("specification id %d was never created", a)
 		}
-		out = append(out, s.real)
+		for _, s := range ms {
+			out = append(out, s.real)
+		}
+	}
+	for _, p := range part {
+		ms := r.byAbs[p.ID]
+		if ms == nil {
+			return nil, fmt.Errorf("specification id %d was never created", p.ID)
+		}
+		in := map[int]bool{}
+		for _, j := range p.JS {
+			if j < 0 || j >= len(ms) {
+				return nil, fmt.Errorf("specification names member %d of series %d which has %d members", j, p.ID, len(ms))
+			}
+			in[j] = true
+		}
+		for j, s := range ms {
+			if in[j] == (p.All == 0) {
+				out = append(out, s.real)
+			}
+		}
 	}
 	sort.Slice(out, func(i, j int) bool { return out[i] < out[j] })
 	return out, nil
@@ -739,7 +850,7 @@ func eqStr(a, b []string) bool {
 	return true
 }
 
-func (r *ixReplay) names(ids []uint64) []string {
+func (r *ixReplay) namesAll(ids []uint64) []string {
 	var out []string
 	for _, id := range ids {
 		if s := r.byReal[id]; s != nil {
@@ -752,6 +863,42 @@ func (r *ixReplay) names(ids []uint64) []string {
 	return out
 }
 
+// names for messages: large sets are abbreviated
+func (r *ixReplay) names(ids []uint64) []string {
+	out := r.namesAll(ids)
+	if len(out) > 12 {
+		n := len(out)
+		out = append(out[:10:10], fmt.Sprintf("... (%d series in all)", n))
+	}
+	return out
+}
+
+// diffNames describes got against want: both sets when small, else what is missing / unexpected
+func (r *ixReplay) diffNames(got, want []uint64) string {
+	if len(got) <= 12 && len(want) <= 12 {
+		return fmt.Sprintf("got %q, want %q", r.names(got), r.names(want))
+	}
+	inW, inG := map[uint64]bool{}, map[uint64]bool{}
+	for _, id := range want {
+		inW[id] = true
+	}
+	for _, id := range got {
+		inG[id] = true
+	}
+	var missing, extra []uint64
+	for _, id := range want {
+		if !inG[id] {
+			missing = append(missing, id)
+		}
+	}
+	for _, id := range got {
+		if !inW[id] {
+			extra = append(extra, id)
+		}
+	}
+	return fmt.Sprintf("got %d series, want %d: missing %q, unexpected %q", len(got), len(want), r.names(missing), r.names(extra))
+}
+
 // checkIDs: after every action every known series key must resolve to its one id
 func (r *ixReplay) checkIDs(st *ixStep) string {
 	vis := map[int]bool{}
@@ -760,28 +907,33 @@ func (r *ixReplay) checkIDs(st *ixStep) string {
 	}
 	seen := map[int]bool{}
 	for _, e := range st.Exp.IDs {
-		s := r.byAbs[e.ID]
-		if s == nil {
+		ms := r.byAbs[e.ID]
+		if ms == nil {
 			return fmt.Sprintf("specification lists id %d that the replay never created", e.ID)
 		}
 		if seen[e.ID] {
 			return fmt.Sprintf("specification id table lists id %d twice", e.ID)
 		}
 		seen[e.ID] = true
-		got, err := r.x.idx().GetSeriesIdBySeriesKey(indexKeyOf(s.mst, s.tags))
-		r.res.Lookups++
-		if err != nil {
-			return fmt.Sprintf("GetSeriesIdBySeriesKey(%q): %v", s.render, err)
+		if e.N != 0 && e.N != len(ms) {
+			return fmt.Sprintf("specification gives series %d multiplicity %d, the replay created %d members", e.ID, e.N, len(ms))
 		}
-		if got == s.real {
-			continue
+		for _, s := range ms {
+			got, err := r.x.idx().GetSeriesIdBySeriesKey(indexKeyOf(s.mst, s.tags))
+			r.res.Lookups++
+			if err != nil {
+				return fmt.Sprintf("GetSeriesIdBySeriesKey(%q): %v", s.render, err)
+			}
+			if got == s.real {
+				continue
+			}
+			if got == 0 && !vis[e.ID] {
+				// deviation model lookup_misses_pending: neither cached nor flushed -> not found
+				r.known(findLookup, fmt.Sprintf("GetSeriesIdBySeriesKey(%q) = 0 although the series was created (id %x): items not flushed yet and the cache was dropped", s.render, s.real))
+				continue
+			}
+			return fmt.Sprintf("GetSeriesIdBySeriesKey(%q) = %x, want %x (the id this series got when it was created)", s.render, got, s.real)
 		}
-		if got == 0 && !vis[e.ID] {
-			// deviation model lookup_misses_pending: neither cached nor flushed -> not found
-			r.known(findLookup, fmt.Sprintf("GetSeriesIdBySeriesKey(%q) = 0 although the series was created (id %x): items not flushed yet and the cache was dropped", s.render, s.real))
-			continue
-		}
-		return fmt.Sprintf("GetSeriesIdBySeriesKey(%q) = %x, want %x (the id this series got when it was created)", s.render, got, s.real)
 	}
 	return ""
 }
@@ -849,6 +1001,29 @@ func dedup(a []string) []string {
 	return out
 }
 
+// explain picks the model (the design, or the smallest set of deviation classes) that explains a real result:
+// (true, "", "") = the specification's set; (true, classes, "") = exactly the prediction of these deviation
+// classes; (false, ..) = neither.
+func (r *ixReplay) explain(got, want []uint64, preds []ixPrediction) (bool, string, string) {
+	if eqU64(got, want) {
+		return true, "", ""
+	}
+	best := ""
+	for _, p := range preds {
+		ps, err := r.realSet(p.IDs, p.Part)
+		if err != nil {
+			continue
+		}
+		if eqU64(got, ps) && (best == "" || len(p.D) < len(best)) {
+			best = p.D
+		}
+	}
+	if best != "" {
+		return true, best, ""
+	}
+	return false, "", r.diffNames(got, want)
+}
+
 func (r *ixReplay) search(st *ixStep) string {
 	var qs []ixQuery
 	if err := json.Unmarshal(st.Exp.X, &qs); err != nil {
@@ -859,6 +1034,9 @@ func (r *ixReplay) search(st *ixStep) string {
 	full := influxql.TimeRange{Min: time.Unix(0, influxql.MinTime).UTC(), Max: time.Unix(0, influxql.MaxTime).UTC()}
 	var hist []histQuery
 	leafIso := map[string][]uint64{}
+	// A Search step is a SEQUENCE of searches served one after the other by this process, i.e. by the same
+	// pooled searcher objects. Every single result below is compared with the specification's set for
+	// (index contents, predicate) -- whatever ran before it.
 	for qi, q := range qs {
 		text, err := r.c.cond(q.P)
 		if err != nil {
@@ -868,33 +1046,12 @@ func (r *ixReplay) search(st *ixStep) string {
 		mst := r.c.mst[q.M]
 		name := mst + "_0000"
 		where := fmt.Sprintf("query %d: measurement %q WHERE %s", qi, mst, strings.Trim(fmt.Sprintf("%q", text), `"`))
-		want, err := r.realSet(q.IDs)
+		want, err := r.realSet(q.IDs, q.Part)
 		if err != nil {
 			r.res.Infra = err.Error()
 			return "infra"
 		}
 		r.res.Searches++
-
-		// pick the model (design, or the smallest set of deviation classes) that explains a result
-		explain := func(got []uint64, preds []ixPrediction) (bool, string, string) {
-			if eqU64(got, want) {
-				return true, "", ""
-			}
-			best := ""
-			for _, p := range preds {
-				ps, err := r.realSet(p.IDs)
-				if err != nil {
-					continue
-				}
-				if eqU64(got, ps) && (best == "" || len(p.D) < len(best)) {
-					best = p.D
-				}
-			}
-			if best != "" {
-				return true, best, ""
-			}
-			return false, "", fmt.Sprintf("got %q, want %q", r.names(got), r.names(want))
-		}
 
 		// (1) SHOW path, ids: MergeSetIndex.searchTSIDs
 		gotShow, err := r.x.showIDs(mst, text)
@@ -902,7 +1059,7 @@ func (r *ixReplay) search(st *ixStep) string {
 			return where + ": SearchSeriesByTableAndCond: " + err.Error()
 		}
 		r.res.Compared++
-		ok, dshow, why := explain(gotShow, q.DShow)
+		ok, dshow, why := r.explain(gotShow, want, q.DShow)
 		if !ok {
 			return where + ": SHOW path (searchTSIDs) " + why
 		}
@@ -926,29 +1083,62 @@ func (r *ixReplay) search(st *ixStep) string {
 		}
 		r.res.Compared++
 		if !eqStr(keys, lst.keys) {
-			return fmt.Sprintf("%s: SearchSeriesKeys lists %q, the ids selected are %q", where, keys, lst.keys)
+			return fmt.Sprintf("%s: SearchSeriesKeys lists %s, the ids selected are %s", where, clipList(keys), clipList(lst.keys))
 		}
 
-		// (3) SELECT path: MergeSetIndex.SearchSeriesWithOpts, first with empty caches (nothing is pending, so
-		// dropping them is invisible to the specification); the history-dependent pass follows the batch
-		gotSel, err := r.isoSelect(mst, text)
-		if err != nil {
-			return where + ": SearchSeriesWithOpts: " + err.Error()
+		// (3) SELECT path: MergeSetIndex.SearchSeriesWithOpts, first with an empty tag-filter cache (nothing is
+		// pending, so dropping the caches is invisible to the specification); the pass in sequence order with the
+		// cache kept follows the batch
+		// (3a) every leaf of the tree is a search of its own with its own expectation
+		hq := histQuery{mst: mst, text: text, where: where, want: want, dsel: q.DSel}
+		for li := range q.LV {
+			lf := &q.LV[li]
+			ltext, err := r.c.cond(lf.P)
+			if err != nil {
+				r.res.Infra = "cannot render leaf: " + err.Error()
+				return "infra"
+			}
+			lwant, err := r.realSet(lf.IDs, lf.Part)
+			if err != nil {
+				r.res.Infra = err.Error()
+				return "infra"
+			}
+			lgot, err := r.isoSelect(mst, ltext)
+			if err != nil {
+				return where + ": SearchSeriesWithOpts (its leaf " + ltext + " searched on its own): " + err.Error()
+			}
+			r.res.Compared++
+			ok, dl, why := r.explain(lgot, lwant, lf.DSel)
+			if !ok {
+				return fmt.Sprintf("%s: its leaf %s searched on its own (SELECT path) %s", where, strings.Trim(fmt.Sprintf("%q", ltext), `"`), why)
+			}
+			if dl != "" {
+				for _, f := range classFindings(dl) {
+					r.known(f, fmt.Sprintf("%s: leaf %s: SELECT path selects %q, unanchored/absent-as-empty evaluation selects %q (deviation classes %s)", where, ltext, r.names(lgot), r.names(lwant), dl))
+					hq.leafFindings = append(hq.leafFindings, f)
+				}
+			}
 		}
-		hist = append(hist, histQuery{mst: mst, text: text, where: where, iso: gotSel})
+		// (3b) the leaves as the SELECT path sees them (after RewriteRegexConditions), for the predictors of the
+		// history pass and of the prune path
 		if err := r.isoLeaves(mst, text, leafIso); err != nil {
 			return where + ": SearchSeriesWithOpts (single leaf): " + err.Error()
 		}
-		r.res.Compared++
-		ok, dsel, why := explain(gotSel, q.DSel)
-		if !ok {
-			return where + ": SELECT path (SearchSeriesWithOpts) " + why
-		}
-		if dsel != "" {
-			for _, f := range classFindings(dsel) {
-				r.known(f, fmt.Sprintf("%s: SELECT path selects %q, unanchored/absent-as-empty evaluation selects %q (deviation classes %s)", where, r.names(gotSel), r.names(want), dsel))
+		// (3c) the tree itself
+		gotSel, err := r.isoSelect(mst, text)
+		if err != nil {
+			var pn *ixPanic
+			if errors.As(err, &pn) {
+				return r.judgePanic(&hq, pn, "")
 			}
+			return where + ": SearchSeriesWithOpts: " + err.Error()
 		}
+		r.res.Compared++
+		if why := r.judgeSelect(&hq, gotSel, leafIso, ""); why != "" {
+			return why
+		}
+		hq.iso = gotSel
+		hist = append(hist, hq)
 
 		// (4) engine level listings (what SHOW SERIES / SHOW TAG KEYS / SHOW TAG VALUES return)
 		cond, err := showCond(text)
@@ -961,7 +1151,7 @@ func (r *ixReplay) search(st *ixStep) string {
 		}
 		r.res.Compared++
 		if !eqStr(sk, dedup(lst.keys)) {
-			return fmt.Sprintf("%s: Engine.SeriesKeys lists %q, the ids selected are %q", where, sk, lst.keys)
+			return fmt.Sprintf("%s: Engine.SeriesKeys lists %s, the ids selected are %s", where, clipList(sk), clipList(lst.keys))
 		}
 		cond, _ = showCond(text)
 		tks, err := eng.TagKeys(engx.DB, []uint32{engx.PT}, [][]byte{[]byte(name)}, cond, full)
@@ -971,14 +1161,16 @@ func (r *ixReplay) search(st *ixStep) string {
 		r.res.Compared++
 		if why := r.judgeTagKeys(mst, tks, lst); why != "" {
 			if why == "known" {
-				r.known(findTagKeys, fmt.Sprintf("%s: Engine.TagKeys returns %q for series %q (keys recovered by splitting the unescaped series key at ',' and '=')", where, tks, lst.keys))
+				r.known(findTagKeys, fmt.Sprintf("%s: Engine.TagKeys returns %q for series %s (keys recovered by splitting the unescaped series key at ',' and '=')", where, tks, clipList(lst.keys)))
 			} else {
 				return where + ": Engine.TagKeys " + why
 			}
 		}
+		// tag-value listing under the condition, for both tag keys and the member tag: exactly the values the
+		// selected series carry, however many series share a value (rows of 64 ids per value in the index)
 		cond, _ = showCond(text)
-		ka, kb := r.c.key["a"], r.c.key["b"]
-		tvs, err := eng.TagValues(engx.DB, []uint32{engx.PT}, map[string][][]byte{name: {[]byte(ka), []byte(kb)}}, cond, full)
+		ka, kb, kn := r.c.key["a"], r.c.key["b"], r.c.key["n"]
+		tvs, err := eng.TagValues(engx.DB, []uint32{engx.PT}, map[string][][]byte{name: {[]byte(ka), []byte(kb), []byte(kn)}}, cond, full)
 		if err != nil {
 			return where + ": Engine.TagValues: " + err.Error()
 		}
@@ -992,11 +1184,11 @@ func (r *ixReplay) search(st *ixStep) string {
 				gotTV[v.Key] = append(gotTV[v.Key], v.Value)
 			}
 		}
-		for _, k := range []string{ka, kb} {
+		for _, k := range []string{ka, kb, kn} {
 			g := gotTV[k]
 			sort.Strings(g)
 			if !eqStr(g, lst.tv[k]) {
-				return fmt.Sprintf("%s: Engine.TagValues(%q) = %q, the series selected carry %q", where, k, g, lst.tv[k])
+				return fmt.Sprintf("%s: Engine.TagValues(%q) = %s, the series selected carry %s", where, k, clipList(g), clipList(lst.tv[k]))
 			}
 			delete(gotTV, k)
 		}
@@ -1026,9 +1218,25 @@ func (r *ixReplay) search(st *ixStep) string {
 					return "infra"
 				}
 			}
+			var wn []string
+			for _, j := range q.TVN {
+				wn = append(wn, strconv.Itoa(j))
+			}
+			sort.Strings(wn)
+			if !eqStr(wn, lst.tv[kn]) {
+				r.res.Infra = fmt.Sprintf("%s: specification member-tag values %s, derived %s", where, clipList(wn), clipList(lst.tv[kn]))
+				return "infra"
+			}
 		}
 	}
 	return r.historyPass(hist, leafIso)
+}
+
+func clipList(a []string) string {
+	if len(a) <= 12 {
+		return fmt.Sprintf("%q", a)
+	}
+	return fmt.Sprintf("%q ... (%d in all)", a[:10], len(a))
 }
 
 // ---- the tag-filter result cache of the SELECT path (known finding F-C10-8) ---------------------------
@@ -1040,7 +1248,294 @@ func (r *ixReplay) search(st *ixStep) string {
 
 type histQuery struct {
 	mst, text, where string
-	iso              []uint64
+	iso              []uint64       // result with an empty tag-filter cache (already judged)
+	want             []uint64       // the specification's set
+	dsel             []ixPrediction // predictions of the deviation models of the open findings
+	leafFindings     []string       // findings the isolated results of its leaves were attributed to
+}
+
+// judgeSelect: one result of the SELECT path for the tree of h (phase "" = with emptied caches, else a description
+// of the position in the sequence). "" = the specification's set, or exactly the prediction of an open finding's
+// deviation model (recorded); otherwise the violation text.
+func (r *ixReplay) judgeSelect(h *histQuery, got []uint64, leafIso map[string][]uint64, phase string) string {
+	ok, d, why := r.explain(got, h.want, h.dsel)
+	if ok {
+		for _, f := range classFindings(d) {
+			r.known(f, fmt.Sprintf("%s: SELECT path%s selects %q, unanchored/absent-as-empty evaluation selects %q (deviation classes %s)", h.where, phase, r.names(got), r.names(h.want), d))
+		}
+		return ""
+	}
+	// the prune path of seriesByTagFilters (see mixCandidates)
+	if e, err := selectCond(h.text); err == nil && e != nil {
+		for _, c := range r.mixCandidates(h.mst, e, leafIso) {
+			if !eqU64(got, c.set) {
+				continue
+			}
+			if c.lit != "" {
+				r.known(findPrune, fmt.Sprintf("%s: SELECT path%s: %s; exactly the set obtained when the filter applied by doPrune matches the tag values against the regular expression `%s` (the UNESCAPED literal tagFilter.Init left in tf.value, compiled as an expression)", h.where, phase, why, c.lit))
+				return ""
+			}
+			if len(h.leafFindings) > 0 {
+				for _, f := range h.leafFindings {
+					r.known(f, fmt.Sprintf("%s: SELECT path%s: %s; exactly the intersection of its leaves where some are evaluated by the index scan (as-implemented matching, attributed above) and the others by doPrune (true matching)", h.where, phase, why))
+				}
+				return ""
+			}
+		}
+	}
+	return h.where + ": SELECT path (SearchSeriesWithOpts)" + phase + " " + why
+}
+
+// judgePanic: the SELECT path panicked. Known only as F-C10-9: a conjunction with a pure-literal regular expression
+// whose unescaped literal does not compile, the message being exactly regexp.MustCompile's for that literal.
+func (r *ixReplay) judgePanic(h *histQuery, pn *ixPanic, phase string) string {
+	if e, err := selectCond(h.text); err == nil && e != nil {
+		for _, v := range pruneLiterals(e) {
+			if _, cerr := regexp.Compile(v); cerr != nil && strings.Contains(pn.msg, "regexp: Compile(") && strings.Contains(pn.msg, cerr.Error()) {
+				r.known(findPrune, fmt.Sprintf("%s: SELECT path%s panics: %s (doPrune compiles the UNESCAPED literal %q, which tagFilter.Init left in tf.value, as a regular expression)", h.where, phase, pn.msg, v))
+				return "stop" // the panic left the searcher's table search open; the case ends here
+			}
+		}
+	}
+	return h.where + ": SELECT path (SearchSeriesWithOpts)" + phase + ": " + pn.Error()
+}
+
+// ---- the prune path of the SELECT path (known finding F-C10-9) -------------------------------------------
+// seriesByExprIterator hands every maximal conjunction of tag comparisons to seriesByTagFilters. With the tag-filter
+// COST cache filled by earlier searches, a filter whose cost is more than 10x the size of the running result is
+// not looked up in the index but applied to the candidate series by doPrune -> matchSeriesKeyTagFilter: the tag
+// value (absent = "") against regexp.MustCompile(tf.value) for =~ / !~, equality otherwise. That is the TRUE
+// matching -- except that tagFilter.Init has replaced tf.value of a pure-literal expression by the unescaped
+// literal (see F-C10-8): the literal is then compiled as an expression (`$x` never matches, `a.b` matches axb,
+// `a|` matches everything, `(` `*x` `[` panic). Which filters are pruned depends on the cost cache, i.e. on the
+// history; the model therefore offers one candidate per choice of pruned leaves per conjunction: the intersection
+// of the ISOLATED REAL results of the scanned leaves and of the doPrune evaluation of the others.
+
+type mixCand struct {
+	set []uint64
+	lit string // non-empty: a pruned leaf matched with this unescaped literal compiled as an expression
+}
+
+func isCmpLeaf(e influxql.Expr) (*influxql.BinaryExpr, bool) {
+	for {
+		p, ok := e.(*influxql.ParenExpr)
+		if !ok {
+			break
+		}
+		e = p.Expr
+	}
+	b, ok := e.(*influxql.BinaryExpr)
+	if !ok || b.Op == influxql.AND || b.Op == influxql.OR {
+		return nil, false
+	}
+	return b, true
+}
+
+// leaves of e if e is a conjunction of comparisons only (isAllAndExpr), else nil
+func allAndLeaves(e influxql.Expr) []*influxql.BinaryExpr {
+	switch n := e.(type) {
+	case *influxql.ParenExpr:
+		return allAndLeaves(n.Expr)
+	case *influxql.BinaryExpr:
+		if n.Op == influxql.AND {
+			l, r := allAndLeaves(n.LHS), allAndLeaves(n.RHS)
+			if l == nil || r == nil {
+				return nil
+			}
+			return append(append([]*influxql.BinaryExpr{}, l...), r...)
+		}
+		if n.Op == influxql.OR {
+			return nil
+		}
+		return []*influxql.BinaryExpr{n}
+	}
+	return nil
+}
+
+// the unescaped literals tf.value holds for the pure-literal regex leaves of conjunctions of e
+func pruneLiterals(e influxql.Expr) []string {
+	var out []string
+	var walk func(e influxql.Expr)
+	walk = func(e influxql.Expr) {
+		switch n := e.(type) {
+		case *influxql.ParenExpr:
+			walk(n.Expr)
+		case *influxql.BinaryExpr:
+			if n.Op == influxql.AND {
+				if ls := allAndLeaves(n); len(ls) >= 2 {
+					for _, l := range ls {
+						if v, ok := rewrittenLiteral(l); ok {
+							out = append(out, v)
+						}
+					}
+					return
+				}
+			}
+			if n.Op == influxql.AND || n.Op == influxql.OR {
+				walk(n.LHS)
+				walk(n.RHS)
+			}
+		}
+	}
+	walk(e)
+	return out
+}
+
+// a regex leaf whose expression is a pure literal: tagFilter.Init leaves the unescaped literal in tf.value
+func rewrittenLiteral(l *influxql.BinaryExpr) (string, bool) {
+	re, ok := l.RHS.(*influxql.RegexLiteral)
+	if !ok {
+		return "", false
+	}
+	text := re.Val.String()
+	v := effectiveRegexValue(text)
+	if v == text || regexp.QuoteMeta(v) == v {
+		return "", false // not rewritten, or the literal means itself as an expression
+	}
+	return v, true
+}
+
+func tagsMap(s *ixSeries) map[string]string {
+	m := map[string]string{}
+	for _, t := range s.tags {
+		m[t.K] = t.V
+	}
+	return m
+}
+
+func (r *ixReplay) mixCandidates(mst string, e influxql.Expr, leafIso map[string][]uint64) []mixCand {
+	var members []*ixSeries
+	for _, s := range r.byReal {
+		if s.mst == mst {
+			members = append(members, s)
+		}
+	}
+	sort.Slice(members, func(i, j int) bool { return members[i].real < members[j].real })
+	var eval func(e influxql.Expr) []mixCand
+	eval = func(e influxql.Expr) []mixCand {
+		switch n := e.(type) {
+		case *influxql.ParenExpr:
+			return eval(n.Expr)
+		case *influxql.BinaryExpr:
+			if n.Op == influxql.AND {
+				if ls := allAndLeaves(n); len(ls) >= 2 && len(ls) <= 6 {
+					return r.conjCandidates(mst, ls, leafIso, members)
+				}
+			}
+			if n.Op == influxql.AND || n.Op == influxql.OR {
+				var out []mixCand
+				for _, a := range eval(n.LHS) {
+					for _, b := range eval(n.RHS) {
+						c := mixCand{lit: a.lit}
+						if c.lit == "" {
+							c.lit = b.lit
+						}
+						if n.Op == influxql.AND {
+							c.set = setAnd(a.set, b.set)
+						} else {
+							c.set = setOr(a.set, b.set)
+						}
+						out = append(out, c)
+					}
+				}
+				return out
+			}
+			if s, ok := leafIso[mst+"\x00"+n.String()]; ok {
+				return []mixCand{{set: s}}
+			}
+		}
+		return nil
+	}
+	return eval(e)
+}
+
+// candidates of one conjunction: every proper subset of its leaves applied by doPrune, the others by the index
+func (r *ixReplay) conjCandidates(mst string, ls []*influxql.BinaryExpr, leafIso map[string][]uint64, members []*ixSeries) []mixCand {
+	n := len(ls)
+	iso := make([][]uint64, n)
+	for i, l := range ls {
+		s, ok := leafIso[mst+"\x00"+l.String()]
+		if !ok {
+			return nil
+		}
+		iso[i] = s
+	}
+	// doPrune evaluation of each leaf per series: with the expression as written, and with the rewritten literal
+	type pe struct {
+		plain map[uint64]bool
+		lit   map[uint64]bool
+		litV  string
+	}
+	pes := make([]pe, n)
+	for i, l := range ls {
+		pes[i].plain = map[uint64]bool{}
+		var litRe *regexp.Regexp
+		if v, ok := rewrittenLiteral(l); ok {
+			if re, err := regexp.Compile(v); err == nil {
+				litRe, pes[i].litV, pes[i].lit = re, v, map[uint64]bool{}
+			}
+		}
+		ref, _ := l.LHS.(*influxql.VarRef)
+		for _, s := range members {
+			tm := tagsMap(s)
+			pes[i].plain[s.real] = bruteEval(l, tm)
+			if litRe != nil && ref != nil {
+				m := litRe.MatchString(tm[ref.Val])
+				pes[i].lit[s.real] = m == (l.Op == influxql.EQREGEX)
+			}
+		}
+	}
+	var out []mixCand
+	for mask := 0; mask < (1<<n)-1; mask++ { // bit set = pruned; at least one leaf is looked up in the index
+		// variants: each pruned leaf with a rewritten literal may be matched either way only by the literal
+		var cur []uint64
+		first := true
+		for i := 0; i < n; i++ {
+			if mask&(1<<i) == 0 {
+				if first {
+					cur, first = append([]uint64{}, iso[i]...), false
+				} else {
+					cur = setAnd(cur, iso[i])
+				}
+			}
+		}
+		sort.Slice(cur, func(a, b int) bool { return cur[a] < cur[b] })
+		lit := ""
+		set, plain := []uint64{}, []uint64{}
+		for _, id := range cur {
+			keepLit, keepPlain := true, true
+			for i := 0; i < n; i++ {
+				if mask&(1<<i) == 0 {
+					continue
+				}
+				keepPlain = keepPlain && pes[i].plain[id]
+				if pes[i].lit != nil {
+					keepLit = keepLit && pes[i].lit[id]
+				} else {
+					keepLit = keepLit && pes[i].plain[id]
+				}
+			}
+			if keepLit {
+				set = append(set, id)
+			}
+			if keepPlain {
+				plain = append(plain, id)
+			}
+		}
+		for i := 0; i < n; i++ {
+			if mask&(1<<i) != 0 && pes[i].lit != nil {
+				lit = pes[i].litV
+			}
+		}
+		// doPrune with the expression as written is the true matching; with the rewritten literal it is F-C10-9
+		// (the candidate counts as such only where the literal changes the outcome)
+		if lit != "" && !eqU64(set, plain) {
+			out = append(out, mixCand{set: set, lit: lit})
+		} else {
+			out = append(out, mixCand{set: plain})
+		}
+	}
+	return out
 }
 
 func (r *ixReplay) isoSelect(mst, text string) ([]uint64, error) {
@@ -1206,6 +1701,17 @@ func modelEval(mst string, e influxql.Expr, leafIso, cache map[string][]uint64) 
 	return nil, false
 }
 
+// historyPass runs the searches of the sequence once more, in order, keeping the tag-filter cache (and the
+// tag-filter cost cache) between them. A search is a function of (index contents, predicate): every result must
+// again be the specification's set, or exactly what the deviation model of an open finding predicts:
+//   - the class models of SeriesIndex.tla (dsel), as for every other search; the real code may legitimately switch
+//     between the design result and such a prediction from one execution to the next (once the cost of a filter is
+//     known, seriesByTagFilters applies it by doPrune = true regexp matching instead of the as-implemented index scan);
+//   - F-C10-8: the set algebra over the isolated leaf results with leaves served from the model cache. This predictor
+//     is usable only if, with an empty cache, it reproduces the isolated result of the tree; if the real leaf results
+//     are themselves inconsistent, the specification's set (and the class models) decide alone.
+//
+// Anything else is a violation.
 func (r *ixReplay) historyPass(hist []histQuery, leafIso map[string][]uint64) string {
 	if len(hist) == 0 {
 		return ""
@@ -1214,9 +1720,15 @@ func (r *ixReplay) historyPass(hist []histQuery, leafIso map[string][]uint64) st
 		return "ClearCache: " + err.Error()
 	}
 	cache := map[string][]uint64{}
-	for _, h := range hist {
+	const phase = " (repeated after the other searches of its sequence)"
+	for hi := range hist {
+		h := &hist[hi]
 		got, err := r.x.selectIDs(h.mst, h.text)
 		if err != nil {
+			var pn *ixPanic
+			if errors.As(err, &pn) {
+				return r.judgePanic(h, pn, phase)
+			}
 			return h.where + ": SearchSeriesWithOpts: " + err.Error()
 		}
 		r.res.Compared++
@@ -1225,24 +1737,37 @@ func (r *ixReplay) historyPass(hist []histQuery, leafIso map[string][]uint64) st
 			return h.where + ": " + err.Error()
 		}
 		if e == nil {
-			if !eqU64(got, h.iso) {
-				return fmt.Sprintf("%s: SELECT path without condition returns %q after other queries, %q before", h.where, r.names(got), r.names(h.iso))
+			if !eqU64(got, h.want) {
+				return fmt.Sprintf("%s: SELECT path without condition, repeated after the other searches of its sequence: %s", h.where, r.diffNames(got, h.want))
 			}
 			continue
 		}
-		// sanity of the decomposition: with an empty cache the algebra over the leaves is the isolated result
-		if alone, ok := modelEval(h.mst, e, leafIso, map[string][]uint64{}); !ok || !eqU64(alone, h.iso) {
-			r.res.Infra = fmt.Sprintf("%s: leaf algebra %q differs from the isolated SELECT result %q", h.where, r.names(alone), r.names(h.iso))
-			return "infra"
+		alone, okAlone := modelEval(h.mst, e, leafIso, map[string][]uint64{})
+		consistent := okAlone && eqU64(alone, h.iso)
+		var alias []uint64
+		if consistent {
+			alias, _ = modelEval(h.mst, e, leafIso, cache) // also keeps the model cache in step
 		}
-		want, _ := modelEval(h.mst, e, leafIso, cache)
-		if eqU64(got, want) {
+		if !eqU64(got, h.iso) {
+			r.res.HistDep++
+		}
+		if eqU64(got, h.want) {
+			continue
+		}
+		if consistent && eqU64(got, alias) {
 			if !eqU64(got, h.iso) {
 				r.known(findAlias, fmt.Sprintf("%s: SELECT path selects %q when it follows the other queries of its batch and %q on its own (a leaf is served from the tag-filter cache entry of a different expression with the same rewritten text)", h.where, r.names(got), r.names(h.iso)))
 			}
 			continue
 		}
-		return fmt.Sprintf("%s: SELECT path selects %q when it follows the other queries of its batch; on its own %q, cache-alias model %q", h.where, r.names(got), r.names(h.iso), r.names(want))
+		why := r.judgeSelect(h, got, leafIso, phase)
+		if why == "" {
+			continue
+		}
+		if consistent {
+			return fmt.Sprintf("%s; on its own it selected %q; cache-alias model of F-C10-8: %q", why, r.names(h.iso), r.names(alias))
+		}
+		return fmt.Sprintf("%s; on its own it selected %q (a search must be a function of index contents and predicate) [the leaves searched on their own compose to %q, not to the result of the tree, so the cache-alias model of F-C10-8 cannot be evaluated: judged against the specification's set]", why, r.names(h.iso), r.names(alone))
 	}
 	return ""
 }
@@ -1291,51 +1816,78 @@ func (r *ixReplay) create(st *ixStep) string {
 		ID  int `json:"id"`
 		New int `json:"new"`
 		Dup int `json:"dup"`
+		N   int `json:"n"`
 	}
 	if err := json.Unmarshal(st.Exp.X, &x); err != nil {
 		r.res.Infra = "bad Create exp: " + err.Error()
 		return "infra"
 	}
+	if x.N <= 0 {
+		x.N = 1 // behaviours recorded before the multiplicity attribute existed
+	}
 	mst := r.c.mst[raw.M]
-	kept, err := r.x.createSeries(mst, r.c.rawTags(raw))
+	// the series of the specification stands for x.N concrete series (members), written in one request
+	rawTags, norm := r.c.rawTags(raw), r.c.normTags(raw)
+	sets := make([][]ctag, x.N)
+	for j := range sets {
+		sets[j] = r.c.memberTags(rawTags, j, x.N)
+	}
+	keptAll, err := r.x.createMany(mst, sets)
 	if err != nil {
-		return fmt.Sprintf("write of %q rejected: %v", renderKey(mst, r.c.rawTags(raw)), err)
+		return fmt.Sprintf("write of %q (%d members) rejected: %v", renderKey(mst, rawTags), x.N, err)
 	}
-	norm := r.c.normTags(raw)
-	if renderKey(mst, kept) != renderKey(mst, norm) {
-		return fmt.Sprintf("the write path kept tags %q, the specification's normalisation (empty values dropped) gives %q", renderKey(mst, kept), renderKey(mst, norm))
+	if x.New == 0 {
+		if ms := r.byAbs[x.ID]; ms == nil {
+			r.res.Infra = fmt.Sprintf("Create of existing id %d unknown to the replay", x.ID)
+			return "infra"
+		} else if len(ms) != x.N {
+			r.res.Infra = fmt.Sprintf("Create of existing id %d with multiplicity %d, created with %d", x.ID, x.N, len(ms))
+			return "infra"
+		}
 	}
-	got, err := r.x.idx().GetSeriesIdBySeriesKey(indexKeyOf(mst, norm))
-	r.res.Lookups++
-	if err != nil {
-		return "GetSeriesIdBySeriesKey after create: " + err.Error()
-	}
-	if got == 0 {
-		return fmt.Sprintf("series %q has no id right after it was written", renderKey(mst, norm))
+	members := make([]*ixSeries, x.N)
+	stop := false
+	for j := 0; j < x.N; j++ {
+		tags := r.c.memberTags(norm, j, x.N)
+		if renderKey(mst, keptAll[j]) != renderKey(mst, tags) {
+			return fmt.Sprintf("the write path kept tags %q, the specification's normalisation (empty values dropped) gives %q", renderKey(mst, keptAll[j]), renderKey(mst, tags))
+		}
+		got, err := r.x.idx().GetSeriesIdBySeriesKey(indexKeyOf(mst, tags))
+		r.res.Lookups++
+		if err != nil {
+			return "GetSeriesIdBySeriesKey after create: " + err.Error()
+		}
+		if got == 0 {
+			return fmt.Sprintf("series %q has no id right after it was written", renderKey(mst, tags))
+		}
+		if x.New == 1 {
+			if o := r.byReal[got]; o != nil {
+				return fmt.Sprintf("new series %q got id %x which already belongs to series %q", renderKey(mst, tags), got, o.render)
+			}
+			s := &ixSeries{abs: x.ID, j: j, real: got, mst: mst, tags: tags, render: renderKey(mst, tags)}
+			members[j] = s
+			r.byReal[got] = s
+			continue
+		}
+		s := r.byAbs[x.ID][j]
+		if got == s.real {
+			continue
+		}
+		if x.Dup == 1 && r.byReal[got] == nil {
+			// deviation model lookup_misses_pending predicts exactly this: a second, fresh id for the series
+			r.known(findLookup, fmt.Sprintf("series %q written again after ClearCache and before the index flush got a second id %x (first id %x)", s.render, got, s.real))
+			stop = true
+			continue
+		}
+		return fmt.Sprintf("existing series %q resolved to id %x on its second write, it was created with id %x", s.render, got, s.real)
 	}
 	if x.New == 1 {
-		if o := r.byReal[got]; o != nil {
-			return fmt.Sprintf("new series %q got id %x which already belongs to series %q", renderKey(mst, norm), got, o.render)
-		}
-		s := &ixSeries{abs: x.ID, real: got, mst: mst, tags: norm, render: renderKey(mst, norm)}
-		r.byAbs[x.ID] = s
-		r.byReal[got] = s
-		return ""
+		r.byAbs[x.ID] = members
 	}
-	s := r.byAbs[x.ID]
-	if s == nil {
-		r.res.Infra = fmt.Sprintf("Create of existing id %d unknown to the replay", x.ID)
-		return "infra"
-	}
-	if got == s.real {
-		return ""
-	}
-	if x.Dup == 1 && r.byReal[got] == nil {
-		// deviation model lookup_misses_pending predicts exactly this: a second, fresh id for the series
-		r.known(findLookup, fmt.Sprintf("series %q written again after ClearCache and before the index flush got a second id %x (first id %x)", s.render, got, s.real))
+	if stop {
 		return "stop"
 	}
-	return fmt.Sprintf("existing series %q resolved to id %x on its second write, it was created with id %x", s.render, got, s.real)
+	return ""
 }
 
 func replayIxCase(c *ixCase) (res ixResult) {
@@ -1354,7 +1906,7 @@ func replayIxCase(c *ixCase) (res ixResult) {
 		res.Infra = "open: " + err.Error()
 		return
 	}
-	r := &ixReplay{x: x, c: conc, byAbs: map[int]*ixSeries{}, byReal: map[uint64]*ixSeries{}, res: &res}
+	r := &ixReplay{x: x, c: conc, byAbs: map[int][]*ixSeries{}, byReal: map[uint64]*ixSeries{}, res: &res}
 	defer func() {
 		if !r.closed {
 			_ = x.e.Close()
